@@ -98,7 +98,7 @@ class SockRun:
             # anyio's own creation path for an existing socket object (SocketStream.from_socket ->
             # AsyncIOBackend.wrap_stream_socket -> loop.create_connection(sock=...)), unchanged
             stream = await A.AsyncIOBackend.wrap_stream_socket(sock)
-            return stream, stream._transport, stream._protocol
+            return stream, getattr(stream, "_transport", None), getattr(stream, "_protocol", None)
         proto = A.StreamProtocol()
         tr = selector_events._SelectorSocketTransport(loop, sock, proto)
         await sleep(0)
